@@ -44,7 +44,8 @@ def byteses():
 
 TEXT_EDGES = ["", "a", "abc", "x" * 255, "x" * 256, "\xe9", "caf\xe9", "€", "\U0001f600", "a\x00b",
               "\x7f", "\x80", "\xff", "Ā", "￿", "na\xefve 中文"]
-SURROGATES = ["\ud800", "\udfff", "a\udc80b", "\ud83d", "\udc00\ud800"]
+SURROGATES = ["\ud800", "\udfff", "a\udc80b", "\ud83d", "\udc00\ud800", "\ud83d\ude00", "x\ud800\udc00y",
+              "\udbff\udfff", "\ud83d\ud83d\ude00"]
 
 
 def texts(surrogates):
